@@ -172,6 +172,7 @@ type PathResult struct {
 	Sample   *ValidationSample
 	Trace    []uint64
 	OKAssert int
+	RangeDecided int
 	Knowns   []string
 }
 
@@ -194,6 +195,8 @@ type HarnessResult struct {
 	AssertsOK   int
 	Queries     int
 	Steps       int
+	Decisions   int
+	RangeDecided int
 	Spawned     map[string]bool
 	Samples     []*ValidationSample
 	Knowns      map[string]int
@@ -218,7 +221,7 @@ func (g *Engine) runPath(s *Solver, fn *ssa.Function, cfg *HarnessCfg, prefix []
 		end = pathEnd{EndUnsupported, fmt.Sprintf("decision prefix not consumed (%d of %d): %s", e.di, len(e.prefix), end.msg)}
 	}
 	r := &PathResult{End: end, Asserts: e.asserts, Reached: e.reached, Alts: e.alts, AltModels: e.altModels, Funcs: e.funcs, Steps: e.steps,
-		Queries: e.nQueries, Spawned: e.spawned, Trace: e.trace, OKAssert: e.nAssertOK, Knowns: e.knowns}
+		Queries: e.nQueries, Spawned: e.spawned, Trace: e.trace, OKAssert: e.nAssertOK, RangeDecided: e.nRangeDecided, Knowns: e.knowns}
 	if (end.kind == EndOK || end.kind == EndHalt) && (wantSample || pin != nil) {
 		r.Sample = e.sample(end.kind)
 	}
@@ -323,6 +326,8 @@ func (g *Engine) Explore(name string, cfg HarnessCfg, workers int, nSamples int,
 				res.AssertsOK += r.OKAssert
 				res.Queries += r.Queries
 				res.Steps += r.Steps
+				res.Decisions += len(r.Trace)
+				res.RangeDecided += r.RangeDecided
 				if r.Sample != nil && len(res.Samples) < nSamples {
 					res.Samples = append(res.Samples, r.Sample)
 				}
